@@ -12,6 +12,9 @@ func init() {
 
 const hNPrefix = 10 // prefixes 0..9 are used by the generic harnesses; 10.. are special
 
+// hStepPrefixes: the prefixes of the single-step harness (generic ones plus deep relation histories).
+var hStepPrefixes = [12]int{0, 1, 2, 3, 4, 5, 6, 7, 8, 9, 13, 14}
+
 // prefix drives the world into a distinctive shape through real operations.
 func (x *hW) prefix(k int) {
 	A, B, R1, R2 := uint8(1<<uA), uint8(1<<uB), uint8(1<<uR1), uint8(1<<uR2)
@@ -89,6 +92,23 @@ func (x *hW) prefix(k int) {
 		x.opReset()
 		x.opNewEntity(0)
 		x.opNewEntity(0)
+	case 13: // the only child of a dead target has left the relation node (its table there is retired)
+		x.opNewEntity(0)
+		x.opBuilderNew(R1, uR1, true, x.h[0], true)
+		x.opNewEntityWith(A)
+		x.opRemoveEntity(0)
+		x.opExchange(1, A, 0, 1) // moves to node (A, R1) carrying the dead target
+	case 14: // a relation table that grew, was retired and is re-used by one child of a new parent
+		x.opNewEntity(0)
+		x.opBuilderNew(A|R1, uR1, true, x.h[0], true)
+		x.opBuilderNew(A|R1, uR1, true, x.h[0], true)
+		x.opBuilderNew(A|R1, uR1, true, x.h[0], true)
+		x.opRemoveEntity(1)
+		x.opRemoveEntity(2)
+		x.opRemoveEntity(3)
+		x.opRemoveEntity(0) // table retired
+		x.opNewEntity(0)    // new parent (recycled id)
+		x.opBuilderNew(A|R1, uR1, true, x.h[4], true)
 	case 7: // second relation type and relation swap material
 		x.opNewEntity(0)
 		x.opBuilderNew(R2, uR2, true, x.h[0], false)
@@ -258,7 +278,7 @@ func hConfig() (int, int, int) {
 func HC01_Step() {
 	prof, capInc, relInc := hConfig()
 	x := hNew(prof, 6, capInc, relInc)
-	x.prefix(vChoice("prefix", hNPrefix))
+	x.prefix(hStepPrefixes[vChoice("prefix", len(hStepPrefixes))])
 	x.check()
 	x.legalStep(vChoice("op", hNOps))
 	x.check()
